@@ -556,6 +556,7 @@ def run_ast_batch(ctx, fmt, n, tag, ftab_argc, depth=6):
         hexb = a.split("|", 1)[0] if "|" in a else ""
         impl_lines.append("%s\tptg\t%s\t%s\t%s" % (lid, fmts[k], "\t".join(envs[k]), hexb))
     impl = ctx.run_impl(impl_lines)
+    option_free(ctx, impl_lines, impl)
     for k, l in enumerate(ast_lines):
         lid = "%s%d" % (tag, k)
         classify_ast(ctx, fmt, lid, l, impl_lines[k], model.get(lid, "(missing)"), impl.get(lid))
@@ -811,6 +812,7 @@ def corpus(ctx):
     impl_lines.append("k28a\tptg\txls\t-\t-\t-\t" + (struct.pack("<H", 3) + bytes([0x21]) + struct.pack("<H", 485)).hex())
     impl_lines.append("k28b\tptg\txlsb\t-\t-\t" + (bytes([0x21]) + struct.pack("<H", 485)).hex())
     impl = ctx.run_impl(impl_lines)
+    option_free(ctx, impl_lines, impl)
     m2 = ctx.run_model(impl_lines[-2:])
     for k, (fmt, env, ast, extra) in enumerate(cases):
         lid = "k%d" % k
@@ -885,6 +887,7 @@ def run_files(ctx, n, ftab_argc):
                 expected[lid] = "ok:%d,%d,%d,%d|%s" % (r0, c0, r1, c1, ";".join(cells))
             ctx.count("file:formulas_per_sheet:%d" % len(ex))
     impl = ctx.run_impl(impl_lines)
+    option_free(ctx, impl_lines, impl)
     for l in impl_lines:
         lid = l.split("\t", 1)[0]
         ctx.traces += 1
@@ -1492,6 +1495,7 @@ def run_xls_files2(ctx, n, argc):
             model_lines.append(_fpos_line("xl%d_p%d" % (k, si), cm, keep=True))
         meta["xl%d" % k] = (line, exp_names, exp_sheets, (known_names, known_sheets), xtis)
     impl = ctx.run_impl(impl_lines)
+    option_free(ctx, impl_lines, impl)
     mod2 = ctx.run_model(model_lines)
     for lid, (line, en, es, (known_names, known_sheets), xtis) in meta.items():
         env = mod2.get(lid + "_e", "")
@@ -1816,6 +1820,7 @@ def run_xls_shared_files(ctx, n, argc):
             model_lines.append("xs%d_m%d\tfsheet\txls\t%s\t%s" % (k, si, "\t".join(ea), _recs_arg(recs)))
         meta["xs%d" % k] = (line, [w for w, _ in per_sheet])
     impl = ctx.run_impl(impl_lines)
+    option_free(ctx, impl_lines, impl)
     mod2 = ctx.run_model(model_lines)
     for lid, (line, wants) in meta.items():
         preds = [mod2.get("%s_m%d" % (lid, si), "(missing)") for si in range(len(wants))]
@@ -2250,12 +2255,35 @@ def run_xlsx_files(ctx, n):
         pred_names = fg.expected_names([(x[1], x[2]) for x in names])
         meta["xx%d" % k] = (line, fg.expected_names([(x[1], x[2]) for x in names]), exp_sheets, sparse, pred_names)
     impl = ctx.run_impl(impl_lines)
+    option_free(ctx, impl_lines, impl)
     _model_ranges(ctx, meta, "xlsx")
     for lid, (line, en, es, _, pn) in meta.items():
         # former K_XLSX_NAME_CDATA (fixed by 6524937): a CDATA section inside <definedName> is part of the text
         _check_book(ctx, "xlsx", line, impl.get(lid), en, es, model_names=pn, known_names=KNOWN_XLSX_CDATA if pn != en else None)
     ctx.extra["generated_xlsx_files"] = n
     return meta, impl
+
+
+def option_free(ctx, impl_lines, impl, limit=60):
+    """worksheet_formula / defined_names are functions of the file alone: under a header row set on
+    the reader (which belongs to the value reads) they must answer what they answer by default"""
+    sub = [l for l in impl_lines if "\topen\t" in l and "formula " in l][:limit]
+    hl = []
+    for l in sub:
+        f = l.split("\t")
+        hl.append("\t".join([f[0] + "_h", f[1], f[2], f[3], "hdr %d;" % (2 + len(hl) % 5) + f[4]]))
+    got = ctx.run_impl(hl)
+    for l, h in zip(sub, hl):
+        lid = l.split("\t", 1)[0]
+        a = impl.get(lid)
+        b = got.get(lid + "_h") or "abort"
+        ctx.traces += 1
+        ctx.count("formula_reads_under_a_header_row")
+        if a is None or a.startswith("openerr"):
+            continue
+        if b.split(";;")[1:] != a.split(";;"):
+            ctx.violations.append({"case": h, "expected": a[:1500], "actual": b[:1500], "model": None,
+                                   "what": "worksheet_formula / defined_names answer differently after with_header_row (formulas above the header row must still be reported at their positions)"})
 
 
 ODS_TEXTS = ["of:=[.A1]+1", "=1+2", "of:=SUM([.A1:.B2])", "oooc:=[.A1]", "msoxl:=A1", 'of:=IF([.A1]<[.B1];"x&y";"<>")',
@@ -2345,6 +2373,7 @@ def run_ods_files(ctx, n):
         impl_lines.append(line)
         meta["xo%d" % k] = (line, fg.expected_names([(n_, t_) for _, n_, t_ in names]), exp_sheets, sparse)
     impl = ctx.run_impl(impl_lines)
+    option_free(ctx, impl_lines, impl)
     _model_ranges(ctx, meta, "ods")
     for lid, (line, en, es, _) in meta.items():
         _check_book(ctx, "ods", line, impl.get(lid), en, es)
